@@ -266,6 +266,39 @@ func c15EcoUnit(name string, tier string) core.Unit {
 				r.Notef("%s and %s answer identically on the routing fingerprint", name, other)
 			}
 		}
+		// strings that are valid versions but invalid ranges (and the reverse) as arguments of
+		// `contains`: a front end that "helpfully" falls back to the other parser shows here
+		{
+			var vNotR, rNotV []string
+			cands := append(gen.Uniq(gen.Versions(name, 0)), gen.Uniq(gen.Ranges(name, 0))...)
+			cands = append(cands, "[1.0", "1.0]", "(1.0", "1.0)", ">=1 >", "1.0.0 <", "1.0 -", "- 1.0", "1.0,", ",1.0", "1.0 ||", "|| 1.0")
+			for _, s := range cands {
+				if s == "" || s != strings.TrimSpace(s) {
+					continue
+				}
+				_, ev := eco.SafeParse(e, s)
+				_, er := eco.SafeParseRange(e, s)
+				if ev == nil && er != nil && len(vNotR) < 12 {
+					vNotR = append(vNotR, s)
+				}
+				if ev != nil && er == nil && len(rNotV) < 12 {
+					rNotV = append(rNotV, s)
+				}
+			}
+			r.AddScope(name, "version_not_range_strings", int64(len(vNotR)))
+			r.AddScope(name, "range_not_version_strings", int64(len(rNotV)))
+			for _, a := range append(append([]string{}, vNotR...), rNotV...) {
+				for _, b := range append(append([]string{pool[0], pool[1]}, vNotR...), rNotV...) {
+					for _, args := range [][]string{{a, b}, {b, a}} {
+						for _, cmd := range []string{"contains", "compare"} {
+							ok, exact, _ := c15Expect(e, cmd, args)
+							r.Add("states", 1)
+							c15Check(x, name, append([]string{name, cmd}, args...), ok, exact, nil)
+						}
+					}
+				}
+			}
+		}
 		// argument order of contains: pools where swapping changes the outcome
 		rg, ver := pool[4], pool[1]
 		okA, exA, _ := c15Expect(e, "contains", []string{rg, ver})
